@@ -400,3 +400,144 @@ def _ge(L, k):
     if v is None:
         raise KeyError(k)
     return v
+
+
+# ======================================================================================================
+# ChunkedReader.read over the generator (abstract: yields consecutive pieces of the decoded body, then stops)
+# ======================================================================================================
+@contract("abstract:BodyGen.__next__", props=("C07",))
+class BodyGenNext(Contract):
+    """ASSUMED interface of the chunk generator as seen by its consumer (the generator body itself is verified above,
+    the link is Python's generator semantics): next() returns the next piece Bd[rc:rc+k), k >= 0, rc+k <= end, or raises
+    StopIteration exactly when the whole decoded body has been produced, or raises a framing error."""
+    trusted = True
+    params = ["self"]
+
+    def modifies(self, c):
+        return [("field", c.a["self"], "g_rc")]
+
+    def result_shape(self, c):
+        return WinShape(Bd)
+
+    def raises(self, c):
+        E = errs(c)
+        g = c.st.obj(c.a["self"]).fields
+        return [(StopIteration, g["g_rc"].t == g["g_end"].t), (E.NoMoreData, None), (E.ChunkMissingTerminator, None),
+                (E.InvalidChunkSize, None)] + header_raises(c) + [oserror(c)]
+
+    exact_raises = False
+
+    def exc_post(self, c):
+        r = c.a["self"]
+        rc0 = c.old.obj(r).fields["g_rc"].t
+        rc1 = c.st.obj(r).fields["g_rc"].t
+        end = c.st.obj(r).fields["g_end"].t
+        if c.exc is not None and c.exc.cls is StopIteration:
+            return [("finished", And(rc1 == rc0, rc1 == end))]
+        return [("cursor-in-range", And(rc0 <= rc1, rc1 <= end))]
+
+    def post(self, c):
+        r = c.a["self"]
+        rc0 = c.old.obj(r).fields["g_rc"].t
+        rc1 = c.st.obj(r).fields["g_rc"].t
+        end = c.st.obj(r).fields["g_end"].t
+        w = c.result.single_win()
+        return [("next-piece", And(w.lo == rc0, w.hi == rc1, rc0 <= rc1, rc1 <= end))]
+
+
+from pyvc.env import STUBS, R1   # noqa: E402
+
+
+def _next_bodygen(ex, st, self_v, args, kwargs, node, _orig=STUBS["next"]):
+    from pyvc.values import FuncV
+    v = args[0]
+    if isinstance(v, Ref) and isinstance(st.obj(v), HObj) and st.obj(v).cls == "BodyGen":
+        return ex.call_func(FuncV("abstract:BodyGen.__next__", v), st, [], {}, node)
+    return _orig(ex, st, self_v, args, kwargs, node)
+
+
+STUBS["next"] = _next_bodygen
+
+
+def mk_chunked_consumer(env, st, finished):
+    env.use_class("gunicorn.http.body", "ChunkedReader")
+    rc, end = fresh_int("gen.rc"), fresh_int("gen.end")
+    st.assume(0 <= rc, rc <= end)
+    gen = st.alloc(HObj("BodyGen", {"g_rc": SInt(rc), "g_end": SInt(end)}))
+    cpos = fresh_int("cr.c")
+    st.assume(0 <= cpos, cpos <= rc)
+    buf = st.alloc(HBio(mk_win(Bd, cpos, rc)))
+    if finished:
+        st.assume(rc == end)
+    return st.alloc(HObj("ChunkedReader", {"parser": NONE if finished else gen, "buf": buf, "g_gen": gen}))
+
+
+def cr_fields(st, r):
+    o = st.obj(r)
+    gen = st.obj(o.fields["g_gen"])
+    return o, gen.fields["g_rc"].t, gen.fields["g_end"].t, st.obj(o.fields["buf"])
+
+
+def RI_chunked(st, r):
+    o, rc, end, bio = cr_fields(st, r)
+    buf = bio.content
+    out = [("RIc.bounds", And(0 <= rc, rc <= end))]
+    if bio.pos is not None:
+        out.append(("RIc.buf-positioned-at-its-end", bio.pos == buf.length()))
+    if isinstance(o.fields["parser"], SNone):
+        out.append(("RIc.parser-None-only-when-finished", rc == end))
+    if buf.atoms:
+        w = buf.single_win()
+        if w is None or not w.base.eq(Bd) or w.xf:
+            return out + [("RIc.buf-is-body-window", FALSE)]
+        out.append(("RIc.buf-ends-at-generator-cursor", And(w.lo <= w.hi, Or(w.lo == w.hi, w.hi == rc), w.lo >= 0)))
+    return out
+
+
+@contract("gunicorn.http.body:ChunkedReader.read", props=("C07",))
+class ChunkedReaderRead(Contract):
+    """implements the abstract reader over the decoded body Bd: read(n>0) returns the next min(n, end-c) bytes"""
+    exact_raises = False
+
+    def cases(self, env):
+        out = []
+        for finished in (False, True):
+            st = base_state(env)
+            r = mk_chunked_consumer(env, st, finished)
+            out.append(("parser=%s" % ("None" if finished else "live"), st, {"self": r, "size": SInt(z3.Int("size"))}, {}))
+        return out
+
+    def pre(self, c):
+        return RI_chunked(c.st, c.a["self"])
+
+    def result_shape(self, c):
+        return WinShape(Bd)
+
+    def raises(self, c):
+        E = errs(c)
+        return [(ValueError, c.a["size"].t < 0), (E.NoMoreData, None), (E.ChunkMissingTerminator, None),
+                (E.InvalidChunkSize, None)] + header_raises(c) + [oserror(c)]
+
+    def post(self, c):
+        r = c.a["self"]
+        o0, rc0, end0, bio0 = cr_fields(c.old, r)
+        o1, rc1, end1, bio1 = cr_fields(c.st, r)
+        c0 = rc0 - bio0.content.length()
+        c1 = rc1 - bio1.content.length()
+        n = c.a["size"].t
+        return RI_chunked(c.st, r) + [
+            ("result==Bd[c:min(c+size,end))", is_Bd(c.result, c0, Min(c0 + n, end0))),
+            ("cursor-advances-by-len(result)", c1 == c0 + c.result.length()),
+            ("end-unchanged", end1 == end0),
+            ("empty-iff-eof-or-zero", Implies(n > 0, (c.result.length() == 0) == (c0 == end0)))]
+
+    loops = {0: dict(anchor="while self.buf.tell() < size", cands=[
+        ("RI(chunked)", lambda L: And(*[f for _, f in RI_chunked(L.st, L.self)])),
+        ("cursor-fixed", lambda L: _cc(L.st, L.self) == _cc(L.entry, L.self)),
+        ("end-fixed", lambda L: cr_fields(L.st, L.self)[2] == cr_fields(L.entry, L.self)[2]),
+    ])}
+
+
+def _cc(st, r):
+    o, rc, end, bio = cr_fields(st, r)
+    return rc - bio.content.length()
